@@ -870,3 +870,14 @@ pub struct ClientReplicationStats {
     /// Replication bytes received in message payloads (without internal messaging plugin data).
     pub bytes: usize,
 }
+
+#[cfg(replicon_verif)]
+impl BufferedMutations {
+    /// Returns `(update tick, message tick, messages count)` for each buffered mutate message.
+    pub fn verif_snapshot(&self) -> Vec<(RepliconTick, RepliconTick, usize)> {
+        self.0
+            .iter()
+            .map(|mutate| (mutate.update_tick, mutate.message_tick, mutate.messages_count))
+            .collect()
+    }
+}
